@@ -71,14 +71,17 @@ def extract(facts):
         raise Unsupported("per-paragraph closure does not trim its input: %s" % fmt_label(tm)[:200])
     pred = tm[2][1]
     pc = pred[1][len("closure:"):] if isinstance(pred, tuple) and pred[0] == "adt" and str(pred[1]).startswith("closure:") else None
+    is_fn = False
+    if pc is None and isinstance(pred, tuple) and len(pred) == 2 and pred[0] == "fn" and pred[1] in facts.fns:
+        pc, is_fn = pred[1], True   # a (nested) function used as predicate
     if pc is None:
-        raise Unsupported("trim predicate is not a closure")
+        raise Unsupported("trim predicate is neither a closure nor a local function: %s" % fmt_label(pred)[:120])
     trimmed = []
     body = facts.fn(pc)["body"]
     import scanner
     cls = scanner.char_classes(body)
     for name, cpnt in sorted(cls.items()):
-        pp = Machine(facts).run(pc, [Ref(Cell(AdtVal("closure:" + pc, None, {}))), Const("int", cpnt)])
+        pp = Machine(facts).run(pc, ([] if is_fn else [Ref(Cell(AdtVal("closure:" + pc, None, {})))]) + [Const("int", cpnt)])
         if len(pp) != 1 or not isinstance(pp[0].ret, Const):
             raise Unsupported("trim predicate on %r" % name)
         if pp[0].ret.v:
